@@ -530,6 +530,8 @@ def server_stage(res, profile, scale, tags, nshards=NSHARDS, max_session=400):
     split_big_sessions(path, max_session)
     v = validate_trace(path, "TraceServer.tla", "TraceServer.cfg", nshards=nshards)
     res.add_trace(f"server/{profile}", v, path, own_tags=tags)
+    if res.tier == "thorough" or os.environ.get("VERIF_NEGCTL"):
+        negative_control(res, f"server/{profile}", path, "TraceServer", ("Cfg",))
     os.remove(path)
 
 
@@ -606,11 +608,86 @@ def check_C10(res):
     return "requests signed by the harness's own RFC 8945 signer; variants: wrong secret, unknown key/algorithm, key-algorithm mismatch, MAC truncated to every length, time offsets around +-fudge, tampered covered octets, bad class/TTL, TSIG not last, other-data, error codes, maximal key/algorithm names; both MACs recomputed in TLC"
 
 
+OBSERVED_FIELDS = ["resp", "got", "msg", "res", "val", "nodes", "parsed", "items", "obs", "hook", "events", "iter", "steps", "ops",
+                   "avail", "after", "tc", "out", "rendered", "text_back", "cmp", "eq", "valid"]
+
+
+def _corrupt(v):
+    """Changes one leaf of a JSON value (the last one reachable); returns (new value, changed?)."""
+    if isinstance(v, bool):
+        return (not v), True
+    if isinstance(v, int):
+        return (v + 1) % 256 if 0 <= v < 256 else v + 1, True
+    if isinstance(v, str):
+        return v + "x", True
+    if isinstance(v, list):
+        for i in range(len(v) - 1, -1, -1):
+            nv, ch = _corrupt(v[i])
+            if ch:
+                return v[:i] + [nv] + v[i + 1:], True
+        return v, False
+    if isinstance(v, dict):
+        prio = [k for k in ("get", "gen", "old", "kind", "res", "after", "avail") + tuple(OBSERVED_FIELDS) if k in v]
+        for k in prio + [k for k in reversed(sorted(v)) if k not in prio]:
+            nv, ch = _corrupt(v[k])
+            if ch:
+                d = dict(v)
+                d[k] = nv
+                return d, True
+    return v, False
+
+
+def negative_control(res, name, path, module, session_start, deque=False, env=None, max_lines=400):
+    """Binding demonstration: take a prefix of an accepted trace, change one observed field of one record,
+    and require TLC to reject it. A corrupted trace that is still accepted means the specification does not
+    constrain what the harness logs: that is a tool error (exit 2), not a property violation."""
+    lines = []
+    with open(path) as f:
+        for i, l in enumerate(f):
+            if i >= max_lines:
+                break
+            lines.append(l)
+    # cut at the last session start so that no session is torn
+    if session_start:
+        starts = [i for i, l in enumerate(lines) if _ev_is(l, session_start)]
+        if len(starts) > 1 and len(lines) == max_lines:
+            lines = lines[:starts[-1]]
+    target = None
+    for i in range(len(lines) - 1, -1, -1):
+        rec = json.loads(lines[i])
+        if session_start and _ev_is(lines[i], session_start):
+            continue
+        for fld in OBSERVED_FIELDS:
+            if fld in rec and rec[fld] not in ([], "", None):
+                nv, ch = _corrupt(rec[fld])
+                if ch:
+                    rec[fld] = nv
+                    target = (i, fld)
+                    break
+        if target:
+            lines[i] = json.dumps(rec) + "\n"
+            break
+    if not target:
+        raise ToolError(f"negative control for {name}: no observed field found to corrupt")
+    npath = path + ".neg"
+    with open(npath, "w") as f:
+        f.writelines(lines)
+    v = validate_trace(npath, module + ".tla", module + ".cfg", nshards=1, session_start=session_start, deque=deque, env=env)
+    os.remove(npath)
+    res.notes[name + "/negative-control"] = dict(corrupted_line=target[0] + 1, field=target[1], rejected_records=v["nbad"])
+    if v["nbad"] < 1:
+        raise ToolError(f"negative control for {name}: the trace with field '{target[1]}' of line {target[0] + 1} changed was still accepted - "
+                        f"the specification does not bind what is logged")
+    log(f"[neg] {name}: corrupting '{target[1]}' of line {target[0] + 1} is rejected ({v['nbad']} record(s))")
+
+
 def trace_stage(res, driver_args, module, name, tags, session_start=None, nshards=NSHARDS, deque=False, env=None, driver_tail=()):
     path = tr(f"{res.pid}-{name.replace('/', '-')}-{res.seed}.ndjson")
     run_driver(driver_args + [path] + list(driver_tail))
     v = validate_trace(path, module + ".tla", module + ".cfg", nshards=nshards, session_start=session_start, deque=deque, env=env)
     res.add_trace(name, v, path, own_tags=tags)
+    if res.tier == "thorough" or os.environ.get("VERIF_NEGCTL"):
+        negative_control(res, name, path, module, session_start, deque=deque, env=env)
     os.remove(path)
     return v
 
@@ -810,6 +887,8 @@ def check_C31(res):
     log(f"[drive] reload_driver: {sum(1 for _ in open(path))} records ({time.time() - t:.1f}s)")
     v = validate_trace(path, "TraceReload.tla", "TraceReload.cfg", session_start=("Reset",))
     res.add_trace("reload", v, path, own_tags=["C31"])
+    if res.tier == "thorough" or os.environ.get("VERIF_NEGCTL"):
+        negative_control(res, "reload", path, "TraceReload", ("Reset",))
     os.remove(path)
     res.assumptions += ["zone-file modification times are set explicitly and increase with every edit (the daemon's unchanged-file shortcut compares mtimes)",
                         "a sentinel zone whose TXT record carries the step number tells the driver when a reload has taken effect; a reload not visible after 60 s is a rejected step"]
